@@ -7,6 +7,7 @@
 
 mod c11;
 mod canon;
+mod coarse;
 mod exec;
 mod findings;
 mod gen;
